@@ -196,7 +196,7 @@ func TestC19_ClientIP(t *testing.T) {
 func TestC19_Malformed(t *testing.T) {
 	rapid.Check(t, func(t *rapid.T) {
 		s := rapid.OneOf(
-			rapid.SampledFrom([]string{"", ":", "[", "]", "[]", "[]:", "[::1]", "::1", "1.2.3.4", "[::1]:", ":80", "[::1%]:80", "a:b:c", "1.2.3.4:80:90", "[fe80::1%eth0]:80", "@", "\x00:1"}),
+			rapid.SampledFrom([]string{"", ":", "[", "]", "[]", "[]:", "[::1]", "::1", "1.2.3.4", "10.0.0.1", "localhost", "[::1]:", ":80", "[::1%]:80", "a:b:c", "1.2.3.4:80:90", "[fe80::1%eth0]:80", "@", "\x00:1"}),
 			rapid.StringMatching(`[\[\]:%.0-9a-f]{0,12}`),
 			rapid.String(),
 		).Draw(t, "remote")
@@ -205,6 +205,9 @@ func TestC19_Malformed(t *testing.T) {
 		checkClientIP(t.Fatalf, s, tok, n, err)
 		if err == nil && tok == "" {
 			t.Fatalf("client.ip returned an empty token without error for %q", s)
+		}
+		if err == nil && n != 1 {
+			t.Fatalf("client.ip counted the request from %q (token %q) as %d units, want 1", s, tok, n)
 		}
 		_, okForm := producedForm(s)
 		vstat.Case("mal|"+s, !okForm && s != "", []string{"malformed-remote-addr"}, map[string]any{"remote": s, "token": tok, "err": fmt.Sprint(err)})
@@ -234,6 +237,9 @@ func TestC19_HostHeaderVariables(t *testing.T) {
 		host := rapid.OneOf(rapid.SampledFrom([]string{"", "example.com", "example.com:8080", "[::1]:80", "EXAMPLE.com", "a b"}), rapid.StringMatching(`[a-zA-Z0-9.:\-\[\]]{0,20}`)).Draw(t, "host")
 		name := rapid.StringOfN(rapid.SampledFrom([]rune(tchar)), 1, 12, -1).Draw(t, "hname")
 		vals := rapid.SliceOfN(rapid.StringMatching(`[ -~]{0,10}`), 0, 3).Draw(t, "hvals")
+		if len(vals) > 0 && rapid.IntRange(0, 3).Draw(t, "longValue") == 0 { // bearer tokens, signed cookies: long values sharing a prefix
+			vals[0] = strings.Repeat("A", rapid.SampledFrom([]int{255, 256, 257, 300, 1024, 5000}).Draw(t, "longLen")) + vals[0]
+		}
 		other := rapid.StringOfN(rapid.SampledFrom([]rune(tchar)), 1, 12, -1).Draw(t, "other")
 		// req.URL is what a balancer upstream may already have rewritten; it is not the Host
 		req := &http.Request{Host: host, Header: http.Header{}, RemoteAddr: "1.2.3.4:5", URL: &url.URL{Scheme: "http", Host: rapid.SampledFrom([]string{"backend:8080", "10.0.0.1", ""}).Draw(t, "urlHost"), Path: "/"}}
